@@ -66,6 +66,10 @@ type Result struct {
 	LogHash    string         `json:"log_hash"`
 	Inconcl    string         `json:"inconclusive,omitempty"`
 	Events     []Event        `json:"events,omitempty"`
+	// Respec, when set on a violating run, is an equivalent spec in more
+	// explicit form (SIM-CONC: the seeded scheduling policy replaced by the
+	// recorded switch list) that the driver prefers for minimisation.
+	Respec json.RawMessage `json:"respec,omitempty"`
 }
 
 func (r *Result) Probe(name string) {
